@@ -1367,8 +1367,6 @@ theorem aliveInv_init (g : List NodeInfo) : AliveInv (init g) := by
   intro n f r _ hj; simp [init, State.m, aget] at hj
 
 /-- decidable sufficient check of `AliveInv` on a concrete state -/
-def aliveOk (s : State) : Bool :=
-  s.metas.all fun p => p.1.r == Role.fork || !p.2.disk.jobinfo || p.2.disk.complete || s.alive.contains p.1
 
 theorem aget_mem_or_default {κ α} [DecidableEq κ] (d : α) (l : List (κ × α)) (k : κ) :
     aget d l k = d ∨ (k, aget d l k) ∈ l := by
